@@ -23,6 +23,7 @@
 #include <unistd.h>
 #include <iostream>
 #include <optional>
+#include <stdexcept>
 #include <vector>
 #include "oomd/util/ScopeGuard.h"
 #include "oomd/util/Util.h"
@@ -49,6 +50,10 @@ namespace Oomd {
 StatsClient::StatsClient(const std::string& stats_socket_path)
     : stats_socket_path_(stats_socket_path) {
   serv_addr_.sun_family = AF_UNIX;
+  if (stats_socket_path_.size() >= sizeof(serv_addr_.sun_path)) {
+    throw std::runtime_error(
+        "Stats socket path is too long: " + stats_socket_path_);
+  }
   ::strcpy(serv_addr_.sun_path, stats_socket_path_.c_str());
 }
 
